@@ -86,12 +86,9 @@ theorem run_guardsFirst (ss : List Step) (h : guardsFirst ss = true) (l : Ledger
           · simp [Step.passes, hc]
           · exact h2 s hs
 
-theorem addBlock_guardsFirst (v P b sr) : guardsFirst (addBlockSteps v P b sr) = true := by
-  cases v <;> rfl
-theorem addBlockBytes_guardsFirst (v P b sr) : guardsFirst (addBlockBytesSteps v P b sr) = true := by
-  cases v <;> rfl
-theorem submitBlock_guardsFirst (v P b) : guardsFirst (submitBlockSteps v P b) = true := by
-  cases v <;> rfl
+theorem addBlock_guardsFirst (P b sr) : guardsFirst (addBlockSteps P b sr) = true := rfl
+theorem addBlockBytes_guardsFirst (P b sr) : guardsFirst (addBlockBytesSteps P b sr) = true := rfl
+theorem submitBlock_guardsFirst (P b) : guardsFirst (submitBlockSteps P b) = true := rfl
 theorem addHeader_guardsFirst (P h) : guardsFirst (addHeaderSteps P h) = true := rfl
 
 /-- what `verifyHeader` (non-VBFT) demands of a header, as a specification -/
@@ -124,29 +121,25 @@ theorem submit_passes (P : Prims) (l : Ledger) (b : Block) :
   simp only [submitSteps, List.mem_cons, List.mem_nil_iff, or_false, forall_eq_or_imp, forall_eq, Step.passes, and_true]
   by_cases h0 : b.hdr.u.height = 0 <;> by_cases hr : P.rootWith l.mem.blockLeaves b.hdr.u.txRoot = b.hdr.u.blockRoot <;> simp [h0, hr]
 
-theorem heightGuards_passes (v : Variant) (l : Ledger) (b : Block) :
-    (∀ s ∈ heightGuards v b, Step.passes l s = true)
+theorem heightGuards_passes (l : Ledger) (b : Block) :
+    (∀ s ∈ heightGuards b, Step.passes l s = true)
       ↔ (l.mem.curHeight < b.hdr.u.height ∧ b.hdr.u.height = (l.mem.curHeight + 1) % u32
-          ∧ (v = .sound → b.hdr.u.prev = l.mem.curHash)) := by
-  cases v <;>
-    simp only [heightGuards, List.append_nil, List.cons_append, List.nil_append, List.mem_cons, List.mem_nil_iff, or_false,
-      forall_eq_or_imp, forall_eq, Step.passes]
-  · by_cases h1 : b.hdr.u.height ≤ l.mem.curHeight <;> by_cases h2 : b.hdr.u.height = (l.mem.curHeight + 1) % u32 <;>
-      simp [h1, h2] <;> omega
-  · by_cases h1 : b.hdr.u.height ≤ l.mem.curHeight <;> by_cases h2 : b.hdr.u.height = (l.mem.curHeight + 1) % u32 <;>
-      by_cases h3 : b.hdr.u.prev = l.mem.curHash <;> simp [h1, h2, h3] <;> omega
+          ∧ b.hdr.u.prev = l.mem.curHash) := by
+  simp only [heightGuards, List.mem_cons, List.mem_nil_iff, or_false, forall_eq_or_imp, forall_eq, Step.passes]
+  by_cases h1 : b.hdr.u.height ≤ l.mem.curHeight <;> by_cases h2 : b.hdr.u.height = (l.mem.curHeight + 1) % u32 <;>
+    by_cases h3 : b.hdr.u.prev = l.mem.curHash <;> simp [h1, h2, h3] <;> omega
 
 /-- the acceptance condition of `AddBlock(block, nil, stateRoot)` as a specification -/
-structure Acceptable (v : Variant) (P : Prims) (l : Ledger) (b : Block) (sr : Hash) : Prop where
+structure Acceptable (P : Prims) (l : Ledger) (b : Block) (sr : Hash) : Prop where
   next : l.mem.curHeight < b.hdr.u.height ∧ b.hdr.u.height = (l.mem.curHeight + 1) % u32
-  tip : v = .sound → b.hdr.u.prev = l.mem.curHash
+  tip : b.hdr.u.prev = l.mem.curHash
   header : HeaderOK P l b.hdr
   notClosing : l.mem.closing = false
   exec : ∃ ws st, execRes P l b = some (ws, st) ∧ (b.txs = [] ∨ P.stateRootWith l.mem.deltaLeaves ws = sr)
   root : P.rootWith l.mem.blockLeaves b.hdr.u.txRoot = b.hdr.u.blockRoot
 
-theorem addBlock_passes (v : Variant) (P : Prims) (l : Ledger) (b : Block) (sr : Hash) :
-    (∀ s ∈ addBlockSteps v P b sr, Step.passes l s = true) ↔ Acceptable v P l b sr := by
+theorem addBlock_passes (P : Prims) (l : Ledger) (b : Block) (sr : Hash) :
+    (∀ s ∈ addBlockSteps P b sr, Step.passes l s = true) ↔ Acceptable P l b sr := by
   simp only [addBlockSteps, List.mem_append, or_imp, forall_and, heightGuards_passes, verifyHeader_passes, submit_passes]
   simp only [List.mem_cons, List.mem_nil_iff, or_false, forall_eq_or_imp, forall_eq, Step.passes, and_true]
   constructor
